@@ -445,7 +445,10 @@ def run(ctx):
         r = p["gen"]
         p["res"] = {}
         ctx.count("programs:" + p["spec"]["class"])
-        if r.rc != 0 or r.timed_out:
+        if r.timed_out or mpgen.tool_unavailable(r):
+            ctx.inconc("mfront could not be run on %s (watchdog, or tree being rebuilt): rc=%s %s" % (mpgen.fname(p["spec"]), r.rc, r.err[-300:]))
+            continue
+        if r.rc != 0:
             ctx.violation("mfront:%s:does-not-generate" % p["spec"]["class"], "mfront refuses a well-formed generated file: %s" % " / ".join((r.out + r.err).strip().splitlines()[1:3]),
                           {"mfront": p["text"], "output": (r.out + r.err)[-2000:]})
             continue
@@ -456,7 +459,9 @@ def run(ctx):
         return j, mpgen.compile_iface(progs[k]["dir"], progs[k]["spec"], i)
     for (k, i), res in vfcore.pmap(comp, jobs):
         progs[k]["res"][i] = res
-        if res["stage"] != "ok":
+        if res["stage"] != "ok" and mpgen.link_race(res["log"]):
+            ctx.inconc("compilation disturbed by a concurrent rebuild of the TFEL libraries: %s" % mpgen.first_error(res["log"]))
+        elif res["stage"] != "ok":
             ctx.violation("%s:%s:does-not-compile" % (i, progs[k]["spec"]["class"]), "generated %s source does not compile: %s" % (i, mpgen.first_error(res["log"])),
                           {"mfront": progs[k]["text"], "compiler": res["log"][-2500:]})
 
